@@ -719,7 +719,10 @@ class InterfaceClass(_InterfaceClassBase):
                 if '__classcell__' in attrs
                 else {}
             )
-            if '__adapt__' in needs_custom_class:
+            if (
+                '__adapt__' in needs_custom_class or
+                getattr(cls, '_CALL_CUSTOM_ADAPT', None)
+            ):
                 # We need to tell the C code to call this.
                 needs_custom_class['_CALL_CUSTOM_ADAPT'] = 1
 
